@@ -480,7 +480,7 @@ func errorBound(w *vh.W) {
 	var rows []row
 	sizes := []int{0, 1, 100, 1000, 10000, 50000}
 	trials := 3
-	if w.N >= 5000 { // thorough tier
+	if w.N >= 1000 { // thorough tier
 		sizes = append(sizes, 200000, 1000000)
 		trials = 12
 	}
